@@ -178,8 +178,14 @@ class AnsiSetting:
         if not val:
             return None
 
+        # Only decimal digits (blanks around them tolerated) are a code; int() alone would also accept a sign,
+        # underscores and non-ASCII digits
+        first = val[0].strip()
+        if not (first.isascii() and first.isdigit()):
+            return None
+
         try:
-            return AnsiParam(int(val[0]))
+            return AnsiParam(int(first))
         except ValueError:
             return None
 
